@@ -114,7 +114,10 @@ def classify_value(fname, x):
 # ---------------------------------------------------------------------------------------------
 # generation
 # ---------------------------------------------------------------------------------------------
-ITER_KINDS = ["list", "tuple", "iter", "gen", "same", "other", "self"]
+# "other": a typed list of another item field held by another configuration; "othersame": a typed list of
+# another item field held by the SAME configuration object (schema with two list fields)
+ITER_KINDS = ["list", "tuple", "iter", "gen", "same", "other", "othersame", "self"]
+OTHER_KINDS = ("other", "othersame")
 
 
 def _by_class(fname):
@@ -167,7 +170,7 @@ def _list_matrix(fname, tier):
                     if ck == "invalid":
                         continue
                     items = [reps[ck], v[0]]
-                elif kind == "other":
+                elif kind in OTHER_KINDS:
                     if not oth_by[ck]:
                         continue
                     items = [oth_by["valid"][0] if oth_by["valid"] else oth_by[ck][0], oth_by[ck][0]]
@@ -234,7 +237,7 @@ def _rand_iterable(rng, fname, cls, maxn=3):
     if kind == "same":
         ok = cls["valid"] + cls["normalisable"]
         return (kind, [rng.choice(ok) for _ in range(n)])
-    if kind == "other":
+    if kind in OTHER_KINDS:
         return (kind, [rng.choice(OTHER_POOL[fname]) for _ in range(n)])
     return (kind, [_rand_item(rng, fname, cls) for _ in range(n)])
 
@@ -332,11 +335,45 @@ DKINDS = {"si": ("str", "int"), "is": ("int", "str"), "ab": ("any", "bool")}
 POOL["any"] = [1, True, 1.0, "a", None, 0, False, "A", 2]
 QUERY["any"] = [1, True, 1.0, "a", None, 0, 2.5, "zz", False]
 OTHER_POOL["any"] = ["a", "b", "1"]
-SRC_KINDS = ["none", "dict", "pairs", "iter", "gen", "mapping", "mappingproxy", "compat", "othercfg", "otherfield",
-             "self"]
+# "otherfield": a typed dict of another field held by another configuration; "otherfieldsame": of another field
+# of the SAME configuration object; "duck": an object with keys() and __getitem__ only; "mappingsub": a
+# collections.abc.Mapping subclass that is not a dict; "pairs2": a list of 2-element lists
+SRC_KINDS = ["none", "dict", "pairs", "pairs2", "iter", "gen", "mapping", "mappingproxy", "duck", "mappingsub", "compat",
+             "othercfg", "otherfield", "otherfieldsame", "self"]
+OTHERFIELD_KINDS = ("otherfield", "otherfieldsame")
+
+
+class _Duck:
+    """duck-typed mapping: keys() and __getitem__, neither a dict nor a registered Mapping"""
+    def __init__(self, d):
+        self._d = dict(d)
+
+    def keys(self):
+        return list(self._d.keys())
+
+    def __getitem__(self, k):
+        return self._d[k]
+
+
+def _mapsub(d):
+    import collections.abc
+
+    class MapSub(collections.abc.Mapping):
+        def __init__(self, dd):
+            self._d = dict(dd)
+
+        def __getitem__(self, k):
+            return self._d[k]
+
+        def __iter__(self):
+            return iter(self._d)
+
+        def __len__(self):
+            return len(self._d)
+    return MapSub(d)
 CLASH_NAMES = ("iterable", "self")     # parameter names of DictProxy.update (open finding F51)
 CLASH_VALUES = {"si": [0, 5, None, "7", 100], "ab": [False, True, None, 0, 1]}
-OR_KINDS = ["dict", "pairs", "compat", "othercfg", "otherfield", "self"]   # `|` with other mappings is their __ror__
+OR_KINDS = ["dict", "pairs", "compat", "othercfg", "otherfield", "otherfieldsame", "self"]   # `|` with other mappings is their __ror__
 KW_KEYS = {"str": ["a", "B", "c ", "zz"], "int": ["7", "5", "abc", "100", "101"], "any": ["a", "b", "k"]}
 
 
@@ -388,7 +425,7 @@ def _src_pairs(dk, skind, kcls, vcls, ck, rng=None):
         ok_k = kcls["valid"] + kcls["normalisable"]
         ok_v = vcls["valid"] + vcls["normalisable"]
         return [(ok_k[0], ok_v[0]), (ok_k[-1], ok_v[-1])]
-    if skind == "otherfield":
+    if skind in OTHERFIELD_KINDS:
         ks, vs = OTHER_POOL[kn], OTHER_POOL[vn]
         _, kf, vf = _denv(dk)
         kk = [k for k in ks if classify_by(kf, k) == (ck if ck != "valid" else classify_by(kf, k))]
@@ -485,7 +522,7 @@ def _dict_random(rng, i, maxops):
             return (skind, [])
         if skind in ("compat", "othercfg"):
             return (skind, rpairs(n, True))
-        if skind == "otherfield":
+        if skind in OTHERFIELD_KINDS:
             return (skind, [(rng.choice(OTHER_POOL[kn]), rng.choice(OTHER_POOL[vn])) for _ in range(n)])
         return (skind, rpairs(n))
 
@@ -545,15 +582,15 @@ def _dsrc_contents(dk, src):
     schema, kf, vf = _denv(dk)
     if skind in ("none", "self"):
         return []
-    if skind in ("dict", "mapping", "mappingproxy"):
+    if skind in ("dict", "mapping", "mappingproxy", "duck", "mappingsub"):
         return _dict_collapse(ps)
-    if skind in ("pairs", "iter", "gen"):
+    if skind in ("pairs", "pairs2", "iter", "gen"):
         return [tuple(p) for p in ps]
     if skind in ("compat", "othercfg"):
         h = schema()
         h.d = dict(ps)
         return list(h.d.items())
-    if skind == "otherfield":
+    if skind in OTHERFIELD_KINDS:
         h = schema()
         h.o = dict(ps)
         return list(h.o.items())
@@ -571,7 +608,8 @@ def _g_dsrc(dk, src):
     if skind == "self":
         return "DSSelf"
     con = {"dict": "DSDict", "pairs": "DSPairs", "iter": "DSIter", "gen": "DSIter", "mapping": "DSMapping",
-           "mappingproxy": "DSMapping", "compat": "DSCompat", "othercfg": "DSSameField", "otherfield": "DSProxyOther"}[skind]
+           "mappingproxy": "DSMapping", "compat": "DSCompat", "othercfg": "DSSameField", "otherfield": "DSProxyOther",
+           "otherfieldsame": "DSProxyOther", "duck": "DSMapping", "mappingsub": "DSMapping", "pairs2": "DSPairs"}[skind]
     return "(%s %s)" % (con, _g_pairs(_dsrc_contents(dk, src)))
 
 
@@ -758,6 +796,9 @@ def _impl_dict(c):
                 parg.clear()
                 parg.update(dict(ps))
                 targ = list(parg.items())
+            elif skind == "otherfieldsame":
+                cfg.o = dict(ps)               # the other dict field of the configuration that holds p
+                parg = cfg.o
             elif skind in ("othercfg", "otherfield"):
                 h = schema()
                 if skind == "othercfg":
@@ -769,11 +810,12 @@ def _impl_dict(c):
             else:
                 raw = [tuple(x) for x in ps]
                 parg = {"dict": dict, "pairs": list, "iter": iter, "gen": lambda v: (x for x in v),
+                        "pairs2": lambda v: [list(x) for x in v], "duck": _Duck, "mappingsub": _mapsub,
                         "mapping": lambda v: collections.UserDict(dict(v)),
                         "mappingproxy": lambda v: types.MappingProxyType(dict(v))}[skind](raw)
             if k == "or":
                 # never validated: the twin gets the same pairs in a plain dict (or the non-dict argument itself)
-                if skind in ("othercfg", "otherfield", "compat"):
+                if skind in ("othercfg", "otherfield", "otherfieldsame", "compat"):
                     targ = dict(contents)
                 elif skind not in ("none", "self"):
                     targ = {"dict": dict, "pairs": list, "iter": iter, "gen": iter,
@@ -956,7 +998,7 @@ def _g_iterable(fname, it):
         return "ItSelf"
     if kind == "same":
         return "(ItProxySame %s)" % g_list(_same_contents(fname, items), gal)
-    if kind == "other":
+    if kind in OTHER_KINDS:
         return "(ItProxyOther %s)" % g_list(_other_contents(fname, items), gal)
     con = {"list": "ItList", "tuple": "ItTuple", "iter": "ItIter", "gen": "ItIter"}[kind]
     return "(%s %s)" % (con, g_list(items, gal))
@@ -968,7 +1010,7 @@ def _it_values(fname, it):
         return []
     if kind == "same":
         return _same_contents(fname, items)
-    if kind == "other":
+    if kind in OTHER_KINDS:
         return _other_contents(fname, items)
     return list(items)
 
@@ -1173,6 +1215,10 @@ def _impl_list(c):
                 elif kind == "other":
                     helper.o = list(items)
                     parg = helper.o
+                    vals = list(parg)
+                elif kind == "othersame":
+                    cfg.o = list(items)         # the other list field of the configuration that holds p
+                    parg = cfg.o
                     vals = list(parg)
                 else:
                     vals = list(items)
